@@ -111,11 +111,17 @@ namespace pika {
 
             void add_source_count()
             {
+#if defined(PIKA_VERIF)
+                PIKA_VERIF_POINT(1422, this);
+#endif
                 state_.fetch_add(stop_state::source_ref_increment, std::memory_order_relaxed);
             }
 
             void remove_source_count()
             {
+#if defined(PIKA_VERIF)
+                PIKA_VERIF_POINT(1423, this);
+#endif
                 state_.fetch_sub(stop_state::source_ref_increment, std::memory_order_acq_rel);
             }
 
@@ -156,7 +162,13 @@ namespace pika {
             // Effect: locks the state
             PIKA_EXPORT void lock() noexcept;
 
-            void unlock() noexcept { state_.fetch_sub(locked_flag, std::memory_order_release); }
+            void unlock() noexcept
+            {
+#if defined(PIKA_VERIF)
+                PIKA_VERIF_POINT(1411, this);
+#endif
+                state_.fetch_sub(locked_flag, std::memory_order_release);
+            }
 
         private:
             friend struct scoped_lock_if_not_stopped;
